@@ -3,6 +3,8 @@
    Statements only; proofs in Quant/Noise.v. *)
 From Coq Require Import ZArith List Bool.
 From QV Require Import Base.ZQ Base.FL Quant.Noise.
+From QVGen Require Import SchedGen.
+From QV Require Import Link.SchedLink.
 Open Scope Z_scope.
 Import ListNotations.
 
@@ -96,3 +98,10 @@ Example C07_nonvacuous :
   c 1 = (0, 1) /\ req (c 4) (7, 8) = true /\ req (c 6) (1, 1) = true /\ req (c 9) (1, 1) = true /\
   rle (c 3) (c 4) = true.
 Proof. vm_compute. repeat split. Qed.
+
+(* ---- tie to the source (T): calculate_qnoise_factor regenerated from qkeras/callbacks.py on this run is the
+   function `calc` the scheduler theorems are about, for every schedule, power oracle and step ---- *)
+Theorem C07_source_scheduler_is_the_model : forall pw start finish freq,
+  translation_ok = true /\ gen_calc pw start finish freq = calc pw start finish freq.
+Proof. intros. split; [exact link_sched_ok | apply link_calc]. Qed.
+Print Assumptions C07_source_scheduler_is_the_model.
